@@ -35,7 +35,7 @@ func init() {
 		PropCheck: "prop_bad_ids",
 		Gen:       c10Gen,
 		Run:       c10Run,
-		Rule:      "call sequences over {Start(good/short seed), NextTimeout, End, Running, HandleBroadcastMsg, HandlePrivateMsg, ForceDisqualify} with in-range (dealer, other, self) and out-of-range indices and 20 message payload kinds, on the three protocols as dealer and non-dealer: all sequences up to a length bound over an 11-symbol alphabet plus weighted random sequences; directed families: every route to a disqualified dealer / invalid key (ForceDisqualify early and late, empty / nil / unknown-tag broadcast, malformed vector of three kinds, malformed complaint and answer, unreadable answer, missing vector, missing / wrong share unanswered or wrongly answered, wrong answer, answer before complaint, unanswered complaint, more than t complaints, Joint: every dealer / the own index) followed by the rest of the run with refused calls in every phase (End before the timeouts, Start while running, third NextTimeout, second End, handlers after End); out-of-range origins that equal the dealer / own / a third index after narrowing to 8, 16 or 32 bits (256+i, -256+i, 2^16+i, +-2^32+i, 2^40+i, MinInt64+i) and MinInt64 / MaxInt64 / +-2^31 / 2^32-1, carrying the dealer's real vector and share before the honest ones, in every phase; Start seeds of length nil, 0, 1, 31, 32, 33, 64, 257, 4096 as dealer and non-dealer; nil slices; runner-side: byte-slice arguments are unmodified after every call, the keys returned by End encode identically after all later calls of the run; non-trivial if at least one call was accepted and one refused; distinct by (protocol, n, t, role, call list)",
+		Rule:      "call sequences over {Start(good/short seed), NextTimeout, End, Running, HandleBroadcastMsg, HandlePrivateMsg, ForceDisqualify} with in-range (dealer, other, self) and out-of-range indices and 20 message payload kinds, on the three protocols as dealer and non-dealer: all sequences up to a length bound over an 11-symbol alphabet plus weighted random sequences; directed families: every route to a disqualified dealer / invalid key (ForceDisqualify early and late, empty / nil / unknown-tag broadcast, malformed vector of three kinds, malformed complaint and answer, unreadable answer, missing vector, missing / wrong share unanswered or wrongly answered, wrong answer, answer before complaint, unanswered complaint, more than t complaints, Joint: every dealer / the own index) followed by the rest of the run with refused calls in every phase (End before the timeouts, Start while running, third NextTimeout, second End, handlers after End); out-of-range origins that equal the dealer / own / a third index after narrowing to 8, 16 or 32 bits (256+i, -256+i, 2^16+i, +-2^32+i, 2^40+i, MinInt64+i) and MinInt64 / MaxInt64 / +-2^31 / 2^32-1, carrying the dealer's real vector and share before the honest ones, in every phase; Start seeds of length nil, 0, 1, 31, 32, 33, 64, 257, 4096 as dealer and non-dealer; nil slices; runner-side: byte-slice arguments are unmodified after every call, the keys returned by End encode identically after all later calls of the run; non-trivial if at least one call was accepted and one refused; distinct by (protocol, n, t, role, call list); a refused Start carrying another valid / short / nil seed as dealer, followed by complaints (answers come from the accepted seed's polynomial)",
 		Shard:     100,
 	})
 }
